@@ -27,25 +27,26 @@ BUDGET = {
 @st.composite
 def dict_trees(draw):
 	rnd = draw(st.randoms(use_true_random=False))
-	tags = 'abcd'
+	# single letters, or names that are string prefixes of each other (list / list_comp, tree / tree_b): paths are compared as strings in several places
+	tags = rnd.choice(['abcd', 'abcd', ['list', 'list_comp', 'li', 'tree', 'tree_b'], ['a', 'ab', 'abc', 'b']])
 
 	def build(depth: int):
 		c = rnd.randint(0, 9)
 		if depth <= 0 or c <= 2:
 			if c == 0:
 				return None
-			tok = {'name': rnd.choice(tags).upper() if rnd.random() < 0.5 else rnd.choice(tags)}
+			tok = {'name': rnd.choice(list(tags)).upper() if rnd.random() < 0.5 else rnd.choice(list(tags))}
 			tok['value'] = rnd.choice(['', 'v', 'x1']) if rnd.random() < 0.8 else ''
 			return tok
 		n = rnd.randint(0, 6)
-		pool = rnd.choice([tags, tags[:2], tags[:1]])
+		pool = rnd.choice([list(tags), list(tags)[:2], list(tags)[:1]])
 		kids = []
 		for _ in range(n):
 			k = build(depth - 1)
 			if isinstance(k, dict) and 'children' in k:
 				k['name'] = rnd.choice(pool)
 			kids.append(k)
-		return {'name': rnd.choice(tags), 'children': kids}
+		return {'name': rnd.choice(list(tags)), 'children': kids}
 
 	root = build(rnd.randint(2, 6))
 	if not isinstance(root, dict) or 'children' not in root:
@@ -147,6 +148,11 @@ def tree_nontrivial(root) -> bool:
 # ---------------------------------------------------------------------------------------
 # (b) Nodes queries against the raw tree, (c) permutation
 
+def _entry_path():
+	from rogw.tranp.syntax.ast.path import EntryPath
+	return EntryPath
+
+
 def judge_nodes(app, entry, queries: list | None) -> tuple[list[tuple[str, str]], dict]:
 	from rogw.tranp.errors import Errors
 	from rogw.tranp.implements.syntax.lark.entry import EntryOfLark
@@ -231,6 +237,20 @@ def judge_nodes(app, entry, queries: list | None) -> tuple[list[tuple[str, str]]
 			if nodes.source_map(path) != wrap(raw).source_map:
 				fails.append(('nodes:source_map', path))
 				break
+			# expand(path): every direct child whose tag has a node class of its own is among the expanded nodes (it cannot lie below another
+			# expanded entry), and everything expanded lies below path
+			resolver = getattr(nodes, '_Nodes__resolver', None)
+			if resolver is not None:
+				expanded = [n.full_path for n in nodes.expand(path)]
+				outside = [p for p in expanded if not p.startswith(path + '.')]
+				if outside:
+					fails.append(('nodes:expand:outside', f'{path}: {outside[:3]}'))
+					break
+				direct = [p for p, _, _ in ref if p.startswith(path + '.') and p.count('.') == path.count('.') + 1]
+				missing = [p for p in direct if resolver.can_resolve(_entry_path()(p).last_tag) and p not in expanded]
+				if missing:
+					fails.append(('nodes:expand:direct-child-missing', f'{path}: expand gives {expanded[:4]}, misses {missing[:3]}'))
+					break
 		except Errors.Error as e:
 			fails.append((f'nodes:raises:{type(e).__name__}', f'{path}: {e}'))
 			break
